@@ -142,7 +142,8 @@ def one_run(prop, seed, i, k, acc, r01_open=False):
         if nontrivial:
             nontrivial_any = True
             acc["__distinct_nontrivial__"].add(_h(psig + "##" + ssig))
-        run_digest.update(json.dumps([sb, ea.out, ea.dump, eb.out, eb.dump], sort_keys=True).encode())
+        run_digest.update(json.dumps([sb, ea.out, ea.dump, ea.held_dump, eb.out, eb.dump, eb.held_dump],
+                                     sort_keys=True).encode())
         if prop == "C19":
             neutralise_text({"program": prog, "a": sa, "b": sb}, ea, eb)
         d = first_divergence(ea, eb)
